@@ -185,9 +185,8 @@ def _exception_reason(cfg, fn, res, nid, node, raisers):
                     guarded = True
             if not guarded:
                 ok = False
-        dom = cfg.facts_at(nid)
-        from ..facts import norm_fact
-        first_test = any(k == "in" and not pos and any(s == ("field", "unit_to_unit_info") for s in walk(res.term(r_))) for k, l_, r_, pos in (norm_fact(e, val) for e, val in dom))
+        from ..facts import absent_keys
+        first_test = any(any(s == ("field", "unit_to_unit_info") for s in walk(mp)) for mp, _k in absent_keys(cfg, res, nid))
         if ok and first_test:
             return "is unreachable (the per-type list only holds units of the unit map, and the write is dominated by the map's duplicate test)"
     if fn.name == "AddCategory" and isinstance(node, ast.Assign) and isinstance(node.targets[0], ast.Subscript):
@@ -216,11 +215,10 @@ def r3_unique(rep, ctx):
         idx = None
         if isinstance(node, ast.Assign) and isinstance(node.targets[0], ast.Subscript):
             idx = res.term(node.targets[0].slice)
-        for e, val in cfg.facts_at(nid):
-            if isinstance(e, ast.Compare) and len(e.ops) == 1:
-                isin = isinstance(e.ops[0], ast.In) and not val or isinstance(e.ops[0], ast.NotIn) and val
-                if isin and any(s == ("field", "unit_to_unit_info") for s in walk(res.term(e.comparators[0]))) and (idx is None or res.term(e.left) == idx):
-                    ok = True
+        from ..facts import absent_keys
+        for mp, k in absent_keys(cfg, res, nid):
+            if any(s == ("field", "unit_to_unit_info") for s in walk(mp)) and (idx is None or k == idx):
+                ok = True
         rep.check(ok, "C14.R3", "AddUnit:" + norm(ast.unparse(node)), "the unit is stored only when it is not yet in the unit map (a symbol belongs to one quantity type)",
                   "the store into the unit map is not dominated by a 'not already registered' test on the same key: a second registration silently replaces the first", node=node, fn=fn)
     rep.floor("C14.R3", "stores into the unit map", n, 1)
